@@ -6468,8 +6468,11 @@ impl Nudge {
         let exact = (truncated.get() as f64)
             + (numer / denom) * (sign.get() as f64) * (increment.get() as f64);
         let rounded = mode.round_float(exact, increment);
-        let grew_big_unit =
-            ((rounded.get() as f64) - exact).signum() == (sign.get() as f64);
+        // N.B. We expanded to the next multiple of the increment precisely
+        // when rounding changed the truncated value. (Comparing the rounded
+        // value with `exact` doesn't work when there is nothing to round,
+        // since `0.0.signum()` is `1.0`.)
+        let grew_big_unit = rounded != truncated;
 
         let span = span
             .try_units_ranged(smallest, rounded.rinto())
